@@ -126,7 +126,7 @@ pub fn run(ctx: &'static Ctx) {
     // parameters
     // letters 0..4 are the property's alphabet; letter 4 is an unknown type string that fills the
     // 32-byte capacity of the type member (any shorter capacity would reject the whole list)
-    let mut alpha = vec![param(-7, PUBLIC_KEY), param(-8, PUBLIC_KEY), param(-257, PUBLIC_KEY), param(-7, "private-key"), param(-8, &fill_text(32, 1))];
+    let mut alpha = vec![param(-7, PUBLIC_KEY), param(-8, PUBLIC_KEY), param(-257, PUBLIC_KEY), param(-7, "private-key"), param(-8, &fill_text(32, 1)), param(-7, "Public-Key")];
     let mut max_len = 6;
     if ctx.thorough() {
         alpha.extend([param(i32::MIN as i64, PUBLIC_KEY), param(i32::MAX as i64, PUBLIC_KEY), param(-7, &fill_text(17, 2))]);
@@ -142,7 +142,7 @@ pub fn run(ctx: &'static Ctx) {
     // GetInfo algorithms over the same lists (shorter bound)
     let glen = 5;
     let gtotal: u64 = (0..=glen as u32).map(|k| 4u64.pow(k)).sum();
-    let a4: Vec<V> = alpha[..4].to_vec();
+    let a4: Vec<V> = alpha[..4].to_vec(); // GetInfo lists use the first four letters
     sweep(ctx, "GetInfo algorithms lists", gtotal, "every list of length <= 5 over the 4-letter alphabet as GetInfo member 0x0A, decoded and re-encoded", |idx, l| {
         // unrank: lists ordered by length then lexicographic
         let mut r = idx;
@@ -202,17 +202,95 @@ pub fn run(ctx: &'static Ctx) {
         }
     });
 
+    // the type string: every single-character edit, case flip, prefix / extension, and control- or
+    // blank-padded variant of "public-key" must be treated as an unknown type (entry dropped)
+    {
+        let base: Vec<char> = PUBLIC_KEY.chars().collect();
+        let printable: Vec<char> = (0x20u8..0x7f).map(|b| b as char).collect();
+        let mut names: Vec<String> = Vec::new();
+        for i in 0..base.len() {
+            let mut d = base.clone();
+            d.remove(i);
+            names.push(d.iter().collect());
+            names.push(base[..i].iter().collect());
+            let mut f = base.clone();
+            f[i] = if f[i].is_ascii_lowercase() { f[i].to_ascii_uppercase() } else { f[i] };
+            names.push(f.iter().collect());
+            for p in &printable {
+                let mut x = base.clone();
+                x[i] = *p;
+                names.push(x.iter().collect());
+            }
+        }
+        for i in 0..=base.len() {
+            for p in printable.iter().chain(['\u{0}', '\t', '\n', '\u{a0}', '\u{feff}', '\u{e9}'].iter()) {
+                let mut x = base.clone();
+                x.insert(i, *p);
+                names.push(x.iter().collect());
+            }
+        }
+        for suffix in ["\u{0}\u{0}", "  ", "-key", "public-key"] {
+            names.push(format!("{}{}", PUBLIC_KEY, suffix));
+        }
+        names.sort();
+        names.dedup();
+        names.retain(|n| n != PUBLIC_KEY && n.len() <= 32);
+        let (nr, pr2) = (&names, &pctx);
+        sweep(ctx, "near-miss type strings", (names.len() * pctx.len()) as u64, "[{alg: EdDSA, type: <near miss>}, {alg: ES256, type: public-key}] for every 1-edit neighbour and padded variant of the type string", move |idx, l| {
+            let name = &nr[(idx as usize) / pr2.len()];
+            let c = &pr2[(idx as usize) % pr2.len()];
+            let list = V::A(vec![param(-8, name), param(-7, PUBLIC_KEY)]);
+            let wire = if c.path.is_empty() { list.clone() } else { treewalk::replaced(&c.wire, &c.path, list.clone()) };
+            l.nontrivial += 1;
+            l.bump("near-miss type");
+            let v = compare(P, &c.target, &wire);
+            if !v.ok {
+                l.fail(ctx, idx, v, || case_json(&c.target, &wire, json!({"context": c.label, "type": name.escape_unicode().to_string()})));
+            }
+        });
+    }
+
+    // algorithm identifiers outside the signed 32-bit range must never be taken for a known one
+    // (wrapping): the reference rejects such a request; it must not yield a phantom ES256 / EdDSA
+    {
+        let wild: Vec<V> = vec![V::U((1 << 32) - 7), V::U((1 << 32) - 8), V::N((1u64 << 32) + 6), V::N((1u64 << 32) + 7), V::U(1 << 31), V::U((1 << 63) - 7), V::U(u64::MAX - 6), V::U(u64::MAX - 7), V::N(u64::MAX - 7)];
+        let mut lists: Vec<(String, V)> = Vec::new();
+        for w in &wild {
+            let entry = V::M(vec![(V::t("alg"), w.clone()), (V::t("type"), V::t(PUBLIC_KEY))]);
+            for before in 0..=2usize {
+                let mut items: Vec<V> = (0..before).map(|i| param(if i == 0 { -8 } else { -7 }, PUBLIC_KEY)).collect();
+                items.push(entry.clone());
+                items.push(param(-8, PUBLIC_KEY));
+                lists.push((format!("alg {:?} after {} known entries", w, before), V::A(items)));
+            }
+        }
+        let (lr2, pr3) = (&lists, &pctx);
+        sweep(ctx, "out-of-range algorithm identifiers", (lists.len() * pctx.len()) as u64, "identifiers congruent to -7 / -8 modulo 2^32 or 2^64 and other values outside the signed 32-bit range, after 0..=2 known entries", move |idx, l| {
+            let (what, list) = &lr2[(idx as usize) / pr3.len()];
+            let c = &pr3[(idx as usize) % pr3.len()];
+            let wire = if c.path.is_empty() { list.clone() } else { treewalk::replaced(&c.wire, &c.path, list.clone()) };
+            l.nontrivial += 1;
+            l.bump("out-of-range algorithm");
+            let v = compare(P, &c.target, &wire);
+            if !v.ok {
+                l.fail(ctx, idx, v, || case_json(&c.target, &wire, json!({"context": c.label, "list": what})));
+            }
+        });
+    }
+
     // attestation formats
-    let falpha = vec![V::t("packed"), V::t("none"), V::t("tpm"), V::t(""), V::t("Packed")];
+    // the two supported formats, the other registered WebAuthn attestation format identifiers that
+    // a platform may list, the empty string and a case variant
+    let falpha = vec![V::t("packed"), V::t("none"), V::t("tpm"), V::t(""), V::t("Packed"), V::t("fido-u2f"), V::t("android-key"), V::t("apple")];
     let fmax = if ctx.thorough() { 6 } else { 5 };
-    let fexpect: u64 = (0..=fmax as u32).map(|k| 5u64.pow(k)).sum();
+    let fexpect: u64 = (0..=fmax as u32).map(|k| 8u64.pow(k)).sum();
     let fctx = contexts("/attestationFormatsPreference", Some("formatsPreference"));
     ctx.note(format!("format contexts: {}", fctx.iter().map(|c| c.label.clone()).collect::<Vec<_>>().join(", ")));
     explore(
         ctx,
-        Lists { name: format!("attestation format lists of length <= {} over 5 letters", fmax), alphabet: Arc::new(falpha), max_len: fmax, contexts: Arc::new(fctx) },
+        Lists { name: format!("attestation format lists of length <= {} over 8 letters", fmax), alphabet: Arc::new(falpha), max_len: fmax, contexts: Arc::new(fctx) },
         Some(fexpect),
-        "complete: every list over {packed, none, tpm, \"\", Packed} in MakeCredential, GetAssertion and stand-alone",
+        "complete: every list over {packed, none, tpm, \"\", Packed, fido-u2f, android-key, apple} in MakeCredential, GetAssertion and stand-alone",
     );
     // long format lists: unknown names with the known ones at every ordered pair of positions,
     // and lists long enough to cross 8-bit counters; unknown names up to 300 bytes
